@@ -1,11 +1,17 @@
-\* thorough: every class of up to three violated clauses; every explored transition is exported
+\* thorough: every class of up to three violated clauses, more validator sets; every explored transition is exported
 SPECIFICATION Spec
 CONSTANTS
   Guard = "AsRequired"
-  Classes <- UpTo3
+  Cmp = "id"
+  Setups <- SetsBig
+  Blocks <- BlocksUpTo3
+  Seconds <- NoSeconds
   MaxRound = 1
   MaxRestarts = 2
   Sched = "fixed"
+  ByzVotes = "support"
+  Loss = "none"
+  Serve = "prefix"
 INVARIANTS TypeOK VotesOnlyFullyValid PersistOnlyApplicable NoWedge
 ACTION_CONSTRAINT Edge
 VIEW View
